@@ -36,6 +36,7 @@ import (
 	"gverif/engine/swapx"
 	"gverif/engine/twin"
 	"gverif/engine/worksize"
+	"gverif/engine/zeroed"
 )
 
 type property struct {
@@ -241,6 +242,9 @@ func lapackProp(self, other, what string) *property {
 			ok := okflow.Run(def, core.Scope{Patterns: []string{"./lapack/gonum"}, Files: sc.Files})
 			ok.Floor("status_call_sites", 10)
 			res.Merge(ok)
+			ce := worksize.RunCallee(def, core.Scope{Patterns: []string{"./lapack/gonum"}, Files: sc.Files})
+			ce.Floor("delegations_compared", 60)
+			res.Merge(ce)
 			us := flagx.RunUnset(def, core.Pkgs("./lapack/gonum"))
 			us.Floor("flag_variable_uses", 3)
 			res.Merge(us)
@@ -302,6 +306,16 @@ func init() {
 			am.Floor("byte_scalings", 40)
 			res.Merge(am)
 
+			ce := worksize.RunCallee(def, core.Pkgs("./lapack/gonum", "./blas/gonum"))
+			ce.Floor("delegations_compared", 400)
+			res.Merge(ce)
+			lc := flagx.RunLdCols(def, core.Pkgs("./lapack/gonum", "./blas/gonum"))
+			lc.Floor("matrix_length_checks", 200)
+			res.Merge(lc)
+			cl := flagx.RunCondLen(def, core.Pkgs("./lapack/gonum", "./blas/gonum"))
+			cl.Floor("operands_with_conditional_length_checks_only", 30)
+			cl.Floor("uses_under_a_branch_on_the_guard_flags", 120)
+			res.Merge(cl)
 			ar := worksize.RunArms(def, core.Pkgs(append(append([]string{"./mat"}, blasPkgs...), lapackPkgs...)...))
 			ar.Floor("two_arm_length_checks", 100)
 			ar.Floor("strided_length_comparisons", 450)
@@ -326,6 +340,9 @@ func init() {
 		explanation: "Decides structural necessary conditions of C04 for every function of mat: TWIN.sync — the receiver-sizing pairs reuseAsNonZeroed/reuseAsZeroed ('must be kept in sync') of six types differ only by use/useZeroed and the final Zero(); TWIN.bounds — the bounds and default element accessors check the same guards and address the same Data element on every access path; CONFIG — mat type-checks with one API under bounds/safe; STRIDE — every Data[...] index/slice and every (Data, Stride) pair handed to blas64/lapack64 uses the stride of the same matrix (views with Stride > Cols are addressed with their own stride everywhere). NILRECV — no call in mat passes a constant nil pointer to a function that dereferences it on every path (found and repaired: Cholesky.SymRankOne panicked for every Vector that is not a RawVectorer — a result depending on the operand's concrete type). Does not decide agreement of specialised dispatch arms with the generic At loop.",
 		assumptions: commonAssumptions,
 		run: func(tier string, res *core.Result) {
+			zr := zeroed.Run(def)
+			zr.Floor("return_paths", 16)
+			res.Merge(zr)
 			sw := swapx.Run(def, core.Pkgs("./mat"))
 			sw.Floor("swaps_guarded_by_a_comparison_of_two_variables", 4)
 			res.Merge(sw)
@@ -739,6 +756,14 @@ func dump(argv []string) {
 		res = aliasx.Run(def, core.Pkgs(argv[1:]...))
 	case "unset":
 		res = flagx.RunUnset(def, core.Pkgs(argv[1:]...))
+	case "zeroed":
+		res = zeroed.Run(def)
+	case "condlen":
+		res = flagx.RunCondLen(def, core.Pkgs(argv[1:]...))
+	case "ldcols":
+		res = flagx.RunLdCols(def, core.Pkgs(argv[1:]...))
+	case "callee":
+		res = worksize.RunCallee(def, core.Pkgs(argv[1:]...))
 	case "betascale":
 		res = flagx.RunBetaScale(def, core.Pkgs(argv[1:]...))
 	case "guardop":
